@@ -16,7 +16,10 @@ LOCAL_KNOWN = os.path.join(HERE, 'eblif_known.json')
 
 # failure kind -> input classes that can explain it (first one present in the document is taken)
 CAUSES = {
-    'reader-raised': ['inout-outputs-first', 'latch-mix', 'no-final-end', 'trailing-comment'],
+    # latch-mix first: it is the one class of this list that is still an open finding (a later .latch with more operands always
+    # raises StopIteration, so nothing else can be observed on such a document); the other three were repaired in /repo, and a
+    # raise on a document that has one of them and no latch-mix is attributed to them and therefore reported
+    'reader-raised': ['latch-mix', 'inout-outputs-first', 'no-final-end', 'trailing-comment'],
     'top-election': ['unused-first-model'],
     'top-library': ['unused-first-model'],
     'top-ports': ['header-gap', 'outputs-before-inputs', 'trailing-comment'],
